@@ -104,12 +104,12 @@ func c14Check(r *Run, input string, writes []*WriteRec, calls []*Call, mode stri
 			continue
 		}
 		f := expectedFrame(c.P, c.Seq)
-		reached := f != nil && c.Seq > 0 && !c.DeadlineFails
+		reached := f != nil && c.Seq > 0 && !c.DeadlineFails && !c.WriteFails
 		switch {
 		case !reached && c.ret && c.Err == nil:
 			r.Fail("send/"+mode+"/refusal-missing", "a call that cannot reach the transport returned nil", input,
-				fmt.Sprintf("%s seq=%d %T deadline_fails=%v returned nil", c.Kind, c.Seq, c.P, c.DeadlineFails),
-				"non-positive sequence numbers, unmarshallable packets and calls whose write deadline cannot be set are refused with an error")
+				fmt.Sprintf("%s seq=%d status=%d %T deadline_fails=%v write_fails=%v returned nil", c.Kind, c.Seq, pduHeader(c.P).CommandStatus, c.P, c.DeadlineFails, c.WriteFails),
+				"non-positive sequence numbers (whatever the other header fields), unmarshallable packets, calls whose write deadline cannot be set and calls whose transport Write fails return an error")
 		case reached:
 			want[string(f)] = append(want[string(f)], c)
 		}
@@ -165,7 +165,7 @@ func corrC14(r *Run) {
 	r.PerShard(12)
 	r.Rule = "forced schedules: 2..6 goroutines issuing 1..4 Send/Submit calls each with PDUs of all registered types (frames up to 3 kB, a few up to 20 kB), " +
 		"every transport Write held and released in a random order, responses before or after the Write returns, non-positive sequence numbers, " +
-		"unmarshallable packets, bare header-only PDUs of one type (enquire_link) from all goroutines at once, frames of 33..60 kB (beyond a 32 KiB copy buffer) and, with a write timeout configured, calls whose SetWriteDeadline the transport refuses mixed in; plus free-running rounds on the writer-holding transport of the property text; " +
+		"non-zero command_status alone and together with a non-positive sequence number (Send and Submit), transport Writes that fail, unmarshallable packets, bare header-only PDUs of one type (enquire_link) from all goroutines at once, frames of 33..60 kB (beyond a 32 KiB copy buffer) and, with a write timeout configured, calls whose SetWriteDeadline the transport refuses mixed in; plus free-running rounds on the writer-holding transport of the property text; " +
 		"non-trivial = schedules with at least two goroutines holding a Write at the same time; distinct by event list"
 	ts := pduTypes()
 	nForced := r.N(100, 1500)
@@ -222,10 +222,21 @@ func c14Forced(r *Run, ts []pduType, idx int) {
 			}
 			seq += int32(1 + rng.Intn(3))
 			s := seq
-			switch rng.Intn(12) {
-			case 0:
+			// a non-zero command_status (an error response: header-only on the wire) — alone, and together with a
+			// non-positive sequence number: the refusal must not depend on any other header field
+			forceBad := (idx == 3 || idx == 5) && g == 0 && j == 0
+			if rng.Intn(8) == 0 || forceBad {
+				pduHeader(p).CommandStatus = pdu.CommandStatus(rng.Pick([]int{1, 3, 8, 0x58, 0xFF, 1 + rng.Intn(0x400)}))
+				if idx == 5 && forceBad {
+					if _, ok := p.(pdu.Responsable); ok {
+						kind = "submit" // NextSequence hands out a non-positive number
+					}
+				}
+			}
+			switch k := rng.Intn(12); {
+			case k == 0 || k == 2 || forceBad:
 				s = badSeq(rng)
-			case 1:
+			case k == 1:
 				if sm, ok := p.(*pdu.SubmitSM); ok { // Marshal refuses a 141+ octet short message
 					sm.Message.Message = rng.Bytes(141 + rng.Intn(100))
 					sm.Message.UDHeader = nil
@@ -236,7 +247,9 @@ func c14Forced(r *Run, ts []pduType, idx int) {
 			}
 			// the transport refuses SetWriteDeadline for this call: it must fail without contributing octets
 			dl := timeouts && (rng.Intn(8) == 0 || (idx == 1 && g == 0 && j == 0))
-			specs = append(specs, CallSpec{Kind: kind, Seq: s, P: p, DeadlineFails: dl})
+			// the transport's Write fails for this call: it must return the error and contribute no octets
+			wf := !dl && (rng.Intn(16) == 0 || (idx == 7 && g == 0 && j == 0))
+			specs = append(specs, CallSpec{Kind: kind, Seq: s, P: p, DeadlineFails: dl, WriteFails: wf})
 		}
 		plans = append(plans, c14Plan{g, specs})
 	}
@@ -329,6 +342,9 @@ func c14Free(r *Run, ts []pduType, idx int) {
 			s := seq
 			if rng.Intn(10) == 0 {
 				s = badSeq(rng)
+				if rng.Bool() {
+					pduHeader(p).CommandStatus = pdu.CommandStatus(1 + rng.Intn(0x400))
+				}
 			}
 			pdu.WriteSequence(p, s)
 			c := &Call{ID: len(all), G: g, Kind: "send", Seq: s, P: p}
@@ -390,7 +406,7 @@ func freeCase(all []*Call, writes []*WriteRec) string {
 		byG[c.G] = append(byG[c.G], c)
 	}
 	next := map[int]int{}
-	var groups, snaps, calls, wire []string
+	var groups, snaps, calls, wire, wireIDs []string
 	var order []*Call
 	nw := 0
 	emitSnap := func() {
@@ -400,7 +416,7 @@ func freeCase(all []*Call, writes []*WriteRec) string {
 				rets = append(rets, fmt.Sprintf("(%d%%nat, %s)", c.ID, c.resTerm()))
 			}
 		}
-		snaps = append(snaps, fmt.Sprintf("(%s, 0, %d, 0, false)", coqList(rets), nw))
+		snaps = append(snaps, fmt.Sprintf("((%s, 0, %d, 0, false), %s)", coqList(rets), nw, coqList(append([]string(nil), wireIDs...))))
 	}
 	// advance goroutine g: start its next calls until one reaches the transport (is held)
 	var advance func(g int) []string
@@ -440,6 +456,7 @@ func freeCase(all []*Call, writes []*WriteRec) string {
 		evs = append(evs, advance(c.G)...)
 		cur[c.G] = c
 		groups = append(groups, coqList(evs))
+		wireIDs = append(wireIDs, coqZ(int64(c.ID)))
 		emitSnap()
 		wire = append(wire, fmt.Sprintf("WCall %d %s", c.ID, coqHex(wr.Data)))
 	}
@@ -459,5 +476,5 @@ func freeCase(all []*Call, writes []*WriteRec) string {
 		calls = append(calls, fmt.Sprintf("(%d%%nat, %s)", c.ID, c.resTerm()))
 	}
 	obs := fmt.Sprintf("(mkObs %s [] %s 0 false 0)", coqList(calls), coqList(wire))
-	return fmt.Sprintf("sched_matches %s true %s %s %s", connVariant, coqList(groups), coqList(snaps), obs)
+	return fmt.Sprintf("sched_admits %s true %s %s %s", connVariant, coqList(groups), coqList(snaps), obs)
 }
